@@ -91,6 +91,11 @@ fn build_id() -> BoxedStrategy<String> {
         1 => gens::pick(&["sha", "g1a2b3c", "main", "x86", "0a", "a0", "post", "dev", "rc", "alpha"]).prop_map(String::from),
         1 => "[a-f0-9]{40,80}".prop_map(|s| if s.bytes().all(|b| b.is_ascii_digit()) { format!("a{s}") } else { s }),
         1 => "[1-9][0-9]{20,75}",
+        // real-world shapes (first '-'-free piece, lower case, canonical digits)
+        2 => gens::text::realistic_ident().prop_map(|s| {
+            let p = s.to_ascii_lowercase().split('-').find(|p| !p.is_empty()).unwrap_or("x").to_string();
+            if p.bytes().all(|b| b.is_ascii_digit()) { let t = p.trim_start_matches('0'); if t.is_empty() { "0".to_string() } else { t.to_string() } } else { p }
+        }),
     ]
     .boxed()
 }
